@@ -452,6 +452,73 @@ fn bounds_order_program(r: &mut Rng) -> String {
     s
 }
 
+/// an affine row whose variable terms sit on the RIGHT-hand side with a negated or computed coefficient
+/// (`y <= -2 * x + 10`, `10 - y >= (1 + 1) * x`), finite declared bounds for `x`: the bounds analysis has to
+/// normalise BOTH sides to tighten `y` in the first compilation, as it does from the rendered literal row
+fn rhs_coefficient_program(r: &mut Rng) -> String {
+    let k = 2 + r.below(3);
+    let c = 5 + r.below(8);
+    let coef = match r.below(6) {
+        0 => format!("-{} * x", k), 1 => format!("x * -{}", k), 2 => format!("(1 + {}) * x", k - 1),
+        3 => format!("2 * {} * x", k), 4 => format!("x / -{}", k), _ => format!("-(1 + 1) * x"),
+    };
+    let row = match r.below(4) {
+        0 => format!("y <= {} + {}", coef, c),
+        1 => format!("y >= {} - {}", coef, c),
+        2 => format!("{} - y >= {}", c, coef),
+        _ => format!("y + 1 <= {} + {}", c, coef),
+    };
+    let name = *r.pick(&["", "lim: "]);
+    let mut s = String::new();
+    s.push_str(match r.below(3) { 0 => "min y\n", 1 => "max y\n", _ => "min x + y\n" });
+    s.push_str("s.t.\n");
+    s.push_str(&format!("    {}{}\n", name, row));
+    if r.chance(1, 2) { s.push_str("    x + y >= -50\n"); }
+    s.push_str("define\n");
+    s.push_str(&format!("    x as {}\n", r.pick(&["Real(0, 4)", "NonNegativeReal(0, 3)", "Real(-2, 2)", "IntegerRange(0, 5)"])));
+    s.push_str(&format!("    y as {}\n", r.pick(&["Real", "Real(-100, 100)", "Real"])));
+    s
+}
+
+/// rows that are tight up to float noise: decimal coefficients and bounds whose exact sum is the right-hand side
+/// (`0.1a + 0.2b <= 0.3` with `a >= 1`, `b >= 1`; 0.1 + 0.2 = 0.30000000000000004): the derived bound misses the
+/// opposite one by an ulp, the published domain must still be a proper interval that the grammar accepts
+fn float_tight_program(r: &mut Rng) -> String {
+    // hundredths
+    let cs: [i64; 8] = [10, 20, 30, 70, 60, 110, 5, 15];
+    let ls: [i64; 7] = [100, 200, 300, 10, 70, 130, 20];
+    let dec = |v: i64, scale: i64| -> String {
+        let (q, rem) = (v / scale, v % scale);
+        if rem == 0 { format!("{}", q) } else {
+            let digits = (scale as f64).log10().round() as usize;
+            let f = format!("{:0width$}", rem, width = digits);
+            format!("{}.{}", q, f.trim_end_matches('0'))
+        }
+    };
+    let (c1, c2, l1, l2) = (*r.pick(&cs), *r.pick(&cs), *r.pick(&ls), *r.pick(&ls));
+    let upper = r.chance(1, 3);      // `>=` row against upper bounds
+    let mut s = String::new();
+    match r.below(3) {
+        0 => {
+            s.push_str("max 3a + 2b\ns.t.\n");
+            s.push_str(&format!("    budget: {}a + {}b {} {}\n", dec(c1, 100), dec(c2, 100), if upper { ">=" } else { "<=" }, dec(c1 * l1 + c2 * l2, 10000)));
+            s.push_str(&format!("    a {} {}\n    b {} {}\n", if upper { "<=" } else { ">=" }, dec(l1, 100), if upper { "<=" } else { ">=" }, dec(l2, 100)));
+            s.push_str("define\n    a, b as Real(0, 100)\n");
+        }
+        1 => {
+            s.push_str("min x + y\ns.t.\n");
+            s.push_str(&format!("    x + y <= {}\n    x >= {}\n", dec(l1 + l2, 100), dec(l1, 100)));
+            s.push_str(&format!("define\n    x as NonNegativeReal\n    y as NonNegativeReal({}, 10)\n", dec(l2, 100)));
+        }
+        _ => {
+            s.push_str("min x - y\ns.t.\n");
+            s.push_str(&format!("    cap: {}x + y <= {}\n    y >= {}\n", dec(c1, 100), dec(c1 * l1 + l2 * 100, 10000), dec(l2, 100)));
+            s.push_str(&format!("define\n    x as Real({}, 50)\n    y as Real(-5, 50)\n", dec(l1, 100)));
+        }
+    }
+    s
+}
+
 /// iterated families and (indexed or shared) row names: the compiled text spells every expanded member literally
 /// (`x_on`, `cap_A`), a fragment may ALSO be the name of a declared variable, and rows that share one source name
 /// are de-duplicated by the compiler (`cap`, `cap__2`, `cap__3`)
@@ -554,6 +621,9 @@ fn seeded_sources() -> Vec<(&'static str, &'static str)> {
         ("seed-bounds-order-abs", "min y\ns.t.\n    abs{ x } <= y\n    y <= 5\ndefine\n    x, y as Real"),
         ("seed-bounds-order-max", "max x\ns.t.\n    lim: max{ x, w } <= y + 1\n    cap: 2y <= 9\ndefine\n    x, w, y as Real"),
         ("seed-strict-rows", "max x + y\ns.t.\n    cap: x < 9\n    2x + y > 1\n    y <= 4\ndefine\n    x, y as Real(-5, 10)"),
+        ("seed-bounds-order-rhs-negated", "min y\ns.t.\n    y <= -2 * x + 10\n    10 - y >= (1 + 1) * x\ndefine\n    x as Real(0, 4)\n    y as Real"),
+        ("seed-float-tight-budget", "max 3a + 2b\ns.t.\n    budget: 0.1a + 0.2b <= 0.3\n    a >= 1\n    b >= 1\ndefine\n    a, b as Real(0, 100)"),
+        ("seed-float-tight-declared", "min x + y\ns.t.\n    x + y <= 0.3\n    x >= 0.1\ndefine\n    x as NonNegativeReal\n    y as NonNegativeReal(0.2, 10)"),
         ("seed-neg-literal", "min -3 * x + (-2) * -y\ns.t.\n    x - -y >= -1\ndefine\n    x, y as Real(-5, 10)"),
     ]
 }
@@ -710,6 +780,14 @@ pub fn generate(seed: u64, n: usize, thorough: bool, corpus: Option<&str>) -> Ve
     {
         let mut rb = r.fork();
         for _ in 0..40 { let s = bounds_order_program(&mut rb); from_source(&s, "generated-bounds-order", &mut cases); }
+    }
+    // --- (iii) right-hand-side coefficients the bounds analysis has to normalise (strict fixpoint oracle), and rows
+    // tight up to float noise; own generator states, fixed-size blocks
+    {
+        let mut rb = r.fork();
+        for _ in 0..40 { let s = rhs_coefficient_program(&mut rb); from_source(&s, "generated-bounds-order-rhs-coefficient", &mut cases); }
+        let mut rt = r.fork();
+        for _ in 0..40 { let s = float_tight_program(&mut rt); from_source(&s, "generated-float-tight", &mut cases); }
     }
     // --- (iii) iterated families, fragment / variable name clashes, shared row names
     for _ in 0..n / 6 {
